@@ -116,15 +116,22 @@ pub fn dispatch(op: &str, a: &[Arg]) -> Option<String> {
                 }
             )
         }
-        // stream_vs_seek x<data> x<pattern>: the streamed sequence must equal the seekable reader's, entry by entry
+        // stream_vs_seek x<data> x<pattern> [x<plan>]: the streamed sequence must equal the seekable reader's, entry by
+        // entry; with a plan the stream source delivers at most plan[i] bytes on its i-th read (short reads)
         "stream_vs_seek" => {
             let data = a[0].b().to_vec();
             let pattern = a[1].b().to_vec();
+            let plan = if a.len() > 2 { a[2].b().to_vec() } else { vec![] };
             let mut ar = match zip::ZipArchive::new(Cursor::new(data.clone())) {
                 Ok(ar) => ar,
                 Err(e) => return Some(format!("[SeekOpenErr {}]", err_obs(&e))),
             };
-            let mut cur = Cursor::new(data);
+            let mut cur = crate::ops_reader::ChunkReader {
+                inner: Cursor::new(data),
+                plan,
+                i: 0,
+                enabled: std::rc::Rc::new(std::cell::Cell::new(true)),
+            };
             let mut j = 0usize;
             loop {
                 let k = if pattern.is_empty() { 255 } else { pattern[j % pattern.len()] };
